@@ -871,7 +871,58 @@ impl Runner {
         let n = info.n_reent as usize;
         let seen: Vec<u8> = info.reent_modes[..n].to_vec();
         let model = e.model_mode;
+        let set_in_sink = match &e.kind {
+            EvKind::Op(Op::FmtSet { m, .. }) | EvKind::Die(Op::FmtSet { m, .. }) => Some(*m % 8),
+            _ => None,
+        };
         self.push(e);
+        if info.unwind_mode != 254 && info.unwind_mode != model {
+            self.violation(
+                "L1",
+                "unwinding-read".into(),
+                step,
+                format!(
+                    "T{}: default() called from a Drop guard while the thread was unwinding out of the \
+                     operation gave {} but the mode last set by T{} is {}",
+                    tid,
+                    if info.unwind_mode == 255 { "a panic".to_string() } else { MODE_NAMES[info.unwind_mode as usize].to_string() },
+                    tid,
+                    MODE_NAMES[model as usize]
+                ),
+            );
+        }
+        if let Some(m) = set_in_sink {
+            // the sink called set_default(m) in the middle of Display: from
+            // then on that is the thread's mode
+            if info.set_in_sink_readback != m {
+                self.violation(
+                    "L1",
+                    "set-in-sink".into(),
+                    step,
+                    format!(
+                        "T{}: set_default({}) called from inside the sink (in the middle of Display) and \
+                         default() read right after it gave {}",
+                        tid,
+                        MODE_NAMES[m as usize],
+                        if info.set_in_sink_readback == 255 { "a panic".to_string() } else { MODE_NAMES[info.set_in_sink_readback as usize].to_string() }
+                    ),
+                );
+            }
+            if let Some(th) = self.threads.get_mut(&tid) {
+                th.prev_mode = Some(th.mode);
+                th.mode = m;
+                th.inherit_mode = None;
+            }
+            self.global_last = Some(m);
+            for (t2, th2) in self.threads.iter_mut() {
+                if *t2 != tid {
+                    if let Some(p) = th2.pending.as_mut() {
+                        p.foreign_set = true;
+                        p.others_mask |= 1 << m;
+                    }
+                }
+            }
+        }
         for (k, m) in seen.iter().enumerate() {
             if *m != model {
                 self.violation(
